@@ -42,7 +42,7 @@ def _xml_escape(text: str, attribute: bool) -> str:
 
 
 def _forms(code: int) -> List[str]:
-    h = f"\\x{code:02x}"
+    h = f"\\x{code:02x}" if code <= 0xFF else (f"\\u{code:04x}" if code <= 0xFFFF else f"\\U{code:08x}")
     forms = [f"^{h}$", f"^a{h}b$", f"^{h}{{2}}$", f"^[{h}]$", f"^[a{h}z]$", f"^[^{h}]$", f"^\\\\{h}$", f"^({h}|b)$"]
     if code < 0x7E:
         forms.append(f"^[{h}-\\x7e]$")
@@ -97,7 +97,8 @@ def bounded(seed: int = 0, max_len: int = 2, **_: Any) -> Dict[str, Any]:
     quirks: List[Dict[str, Any]] = []
     cases = 0
     distinct = 0
-    codes = list(range(0x20, 0x7F)) + [0x09, 0x80, 0xE9, 0xFF]
+    # beyond U+00FF the escapes are \\uXXXX and \\UXXXXXXXX: XML Schema knows none of them
+    codes = list(range(0x20, 0x7F)) + [0x09, 0x80, 0xE9, 0xFF, 0x100, 0x20AC, 0xD7FF, 0x1F600]
     for code in codes:
         ch = chr(code)
         alphabet = sorted({ch, "a", "b", "z", "\\", "x", f"{code:02x}"[0], f"{code:02x}"[1], "-", "]", "^", " ", "~"})
